@@ -487,7 +487,9 @@ func calculateChanges(oldVals, newVals map[string]string) (add, remove []KV) {
 	}
 
 	for k, v := range oldVals {
-		if val, ok := newVals[k]; !ok || v != val {
+		// a key whose value changed is reported by add only: listeners remove by key,
+		// a remove delivered after the add would drop the new value
+		if _, ok := newVals[k]; !ok {
 			remove = append(remove, KV{
 				Key: k,
 				Val: v,
